@@ -30,9 +30,7 @@ NOT_YET = {
     'C07': 'schedule differential check under construction (DESIGN.md section 4, C07)',
     'C08': 'schedule race check under construction (DESIGN.md section 4, C08)',
     'C12': 'schedule grouping check under construction (DESIGN.md section 4, C12)',
-    'C14': 'generated compile-fail programs under construction (DESIGN.md section 4, C14)',
     'C17': 'panic fault enumeration under construction (DESIGN.md section 4, C17)',
-    'C18': 'constructor / batch precondition enumeration under construction (DESIGN.md section 4, C18)',
 }
 
 
@@ -66,6 +64,10 @@ def main():
         'engines': [
             {'name': 'engine', 'path': 'harness/engine', 'serves_properties': sorted(p for p, e in engines_of.items() if e == 'engine'),
              'kind_free_text': 'model-based stateful property-testing engine (proptest TestRunner on 16 workers; generated type pools per registry in harness/regs/*)'},
+            {'name': 'progs', 'path': 'gen/gen_progs.py + harness/progs', 'serves_properties': sorted(p for p, e in engines_of.items() if e == 'progs'),
+             'kind_free_text': 'generated programs with expected compiler verdict; cargo check --message-format=json maps diagnostics to functions'},
+            {'name': 'c18', 'path': 'gen/gen_c18.py + harness/c18', 'serves_properties': sorted(p for p, e in engines_of.items() if e == 'c18'),
+             'kind_free_text': 'generated registry types x constructors (exhaustive), batch length tuples (exhaustive + proptest)'},
             {'name': 'sched', 'path': 'harness/sched + harness/schedbins/*', 'serves_properties': sorted(p for p, e in engines_of.items() if e == 'sched'),
              'kind_free_text': 'generated schedule pools compiled as many small binaries; proptest world contents; deterministic fork/join driver through the cfg(brood_verif) hook; real rayon pools'},
         ],
